@@ -141,3 +141,8 @@ def cor_bounds(ctx, cls):
     ctx.ensure("covariance(0)=var", ctx.eq(mod.covariance(0.0), v))
     ctx.ensure("variogram(0)=nugget", ctx.eq(mod.variogram(0.0), n))
     ctx.ensure("|covariance|<=var", ctx.And(ctx.le(mod.covariance(r), v), ctx.ge(mod.covariance(r), -v)))
+
+
+# dispatch inside exp_int / inc_gamma (the contract E(s, x) used above is only as good as it)
+from contracts import special_fn  # noqa: E402
+special_fn.register(P)
